@@ -143,3 +143,80 @@ func HarnessLoadStructure() {
 	vrt.Assert(root.IsEnabled() == (len(want) > 0), "an-aggregator-left-empty-is-disabled")
 	vrt.Reach("loaded")
 }
+
+// c15Subst is the template model of the nested-iterator harness: every "{{ name }}" is replaced by the value of
+// `name` on the variable stack (a template error if there is none); enabled expressions are all true.
+func c15Subst(f template.Fields, confSvc template.ConfigurationService, parentPath string, varStack map[string]string, objStack map[string]interface{}, baseConfigStack map[string]string, cache map[string]texttemplate.Template, repo repos.IRepo) error {
+	for _, field := range f {
+		v := field.Get()
+		if strings.HasPrefix(v, "{{enabled:") {
+			field.Set("true")
+			continue
+		}
+		for {
+			i := strings.Index(v, "{{ ")
+			if i < 0 {
+				break
+			}
+			j := strings.Index(v[i:], " }}")
+			if j < 0 {
+				return errors.New("unterminated expression in " + parentPath)
+			}
+			val, ok := varStack[v[i+3:i+j]]
+			if !ok {
+				return errors.New("unknown variable " + v[i+3:i+j] + " in " + parentPath)
+			}
+			v = v[:i] + val + v[i+j+3:]
+		}
+		field.Set(v)
+	}
+	return nil
+}
+
+// An iterator nested in an iterated role, its range depending on the outer iteration variable (begin/end form):
+// outer element o in 1..N yields a group g<o> holding the calls w<o>-1 .. w<o>-<o>; every generated role has both
+// iteration variables bound to its own values; the same tree for every setting of the concurrency switches.
+//verif:entry HarnessNestedIterator unwind=64 preempt=0 reach=loaded stub=github.com/AliceO2Group/Control/common/utils.TimeTrack,github.com/jinzhu/copier.Copy
+//verif:thorough HarnessNestedIterator preempt=1
+func HarnessNestedIterator() {
+	template.VerifHook_Fields_Execute = c15Subst
+	the.VerifHook_ConfSvc = func() configuration.Service { return nil }
+	viper.Set("concurrentWorkflowTemplateProcessing", vrt.Bool("concurrent.children"))
+	viper.Set("concurrentWorkflowTemplateIteratorProcessing", vrt.Bool("concurrent.iterator.children"))
+	viper.Set("concurrentIteratorRoleExpansion", vrt.Bool("concurrent.iterator.expansion"))
+	n := vrt.IntRange("outer.elements", 2, 3)
+
+	inner := &iteratorRole{For: &iteratorRangeFor{Begin: "1", End: "{{ o }}", Var: "it"}, template: &callTemplate{callRole: *c15Call("w{{ o }}-{{ it }}", "w")}}
+	group := &aggregatorTemplate{aggregatorRole: aggregatorRole{c15Base("g{{ o }}", "g"), aggregator{Roles: []Role{inner}}}}
+	outer := &iteratorRole{For: &iteratorRangeFor{Begin: "1", End: []string{"0", "1", "2", "3"}[n], Var: "o"}, template: group}
+	root := &aggregatorRole{c15Base("root", "root"), aggregator{Roles: []Role{outer}}}
+	LinkChildrenToParents(root)
+	outer.setParent(root)
+
+	err := root.ProcessTemplates(nil, nil, map[string]string{})
+	vrt.Trace("err", err)
+	vrt.Assert(err == nil, "load-succeeds-without-template-errors")
+	var got, want []string
+	for _, g := range root.GetRoles() {
+		got = append(got, g.GetName())
+		for _, c := range g.GetRoles() {
+			got = append(got, g.GetName()+"."+c.GetName())
+			o, _ := c.GetVars().Get("o")
+			it, _ := c.GetVars().Get("it")
+			if cv, err := c.ConsolidatedVarStack(); err == nil {
+				o, it = cv["o"], cv["it"]
+			}
+			vrt.Assert("w"+o+"-"+it == c.GetName(), "iteration-variables-are-bound-in-each-generated-role")
+		}
+	}
+	for o := 1; o <= n; o++ {
+		os := string(rune('0' + o))
+		want = append(want, "g"+os)
+		for i := 1; i <= o; i++ {
+			want = append(want, "g"+os+".w"+os+"-"+string(rune('0'+i)))
+		}
+	}
+	vrt.Trace("got", strings.Join(got, ","), "want", strings.Join(want, ","))
+	vrt.Assert(strings.Join(got, ",") == strings.Join(want, ","), "nested-iterator-yields-one-child-per-element-of-its-own-range")
+	vrt.Reach("loaded")
+}
